@@ -57,7 +57,7 @@ if confirmed:
     try:
         for p in props:
             t = time.time()
-            rc, o = sh(["./check", p, "--tier", "quick"], cwd="/verif", env=dict(os.environ), timeout=1500)
+            rc, o = sh(["./check", p, "--tier", "quick"], cwd="/verif", env=dict(os.environ, VERIF_EVIDENCE_DIR="/tmp/seed_eval_evidence"), timeout=1500)
             lines = [l for l in o.splitlines() if l.startswith(("VIOLATION", "KNOWN-FINDING"))]
             meta["ran"].append({"check": p, "exit": rc, "lines": lines[:5], "wall_s": round(time.time() - t, 1)})
             print(f"   ./check {p} -> exit {rc} {lines[:2]}")
